@@ -45,6 +45,14 @@ var c10Corpus = []string{
 	"let g = [1, 2, 2, 3].groupByInt(e -> e); g.size() + a",
 	"[1, 2, 3].map(e -> e + a).reduce((p, q) -> p * q) + (try [1][a] catch 0 - 1)",
 	"let big = numbers(200).map(e -> e + 1).map(e -> e * 3); big[a * 7 % 200] + big.indexWhere(e -> e > a * 9)",
+	// constant maps with more entries than any small-map shortcut handles, read behind every position, then observed in order
+	"let c = {k0: 0, k1: 1, k2: 2, k3: 3, k4: 4, k5: 5, k6: 6, k7: 7, k8: 8, k9: 9, k10: 10, k11: 11}; [(c + {zz: a}).string(), c.k10 + a, c.k9 + a, c.k11 + a, (c + {zy: a}).list().map(e -> e.key).string()].string()",
+	"let c = {k0: 0, k1: 1, k2: 2, k3: 3, k4: 4, k5: 5, k6: 6, k7: 7, k8: 8, k9: 9, k10: 10, k11: 11}; if a % 2 = 0 then c.get(\"k\" + (8 + a % 4)) else (c + {zz: a}).string().len() * 1000 + (c + {zz: a}).list().first().value",
+	"let c = {k0: 0, k1: 1, k2: 2, k3: 3, k4: 4, k5: 5, k6: 6, k7: 7, k8: 8, k9: 9, k10: 10, k11: 11, k12: 12, k13: 13, k14: 14, k15: 15, k16: 16, k17: 17, k18: 18, k19: 19, k20: 20, k21: 21}; [c.k21 + a, c.map((k, v) -> v + a).string()].string()",
+	// a constant binning as the first part of a collector (the collector sums into a value of its own)
+	"[[0.5, 1.5, 1.5].binning(0, 1, 2, x -> x, x -> 1), [a + 0.5].binning(0, 1, 2, x -> x, x -> 1)].collectBinning().values.string()",
+	"let b0 = [0.5, 1.5, 1.5].binning(0, 1, 2, x -> x, x -> 1); [[b0, [a + 0.5].binning(0, 1, 2, x -> x, x -> 1)].collectBinning().values.string(), b0.values.string()].string()",
+	"let b0 = [[0.5, 0.5], [1.5, 0.5]].binning2d(0, 1, 2, 0, 1, 2, x -> x[0], x -> x[1], x -> 1); [[b0, [[a + 0.5, 0.5]].binning2d(0, 1, 2, 0, 1, 2, x -> x[0], x -> x[1], x -> 1)].collectBinning().values.string(), b0.values.string()].string()",
 }
 
 // every lazy stage as a constant (argument-free, folded by the optimizer) that is then consumed lazily,
@@ -58,6 +66,8 @@ func c10ConstSweep() []string {
 		"numbers(2000).combine((p, q) -> p * q).map(x -> x % 7)", "numbers(40).map(e -> e + 1).combine((p, q) -> p + q).accept(e -> e % 2 = 1)",
 		"numbers(30).iirCombine(e -> e, (le, e, l) -> l + e - le)", "numbers(12).fsm((s, e) -> goto((s.state + e) % 3)).map(m -> m.state)",
 		"[3, 1, 2].order(e -> e)", "[3, 1, 2].reverse()", // (groupBy*/unique* have an unspecified order: excluded by the property)
+		// constant concatenations whose operands run closures on the stack of whoever iterates them
+		"numbers(20).number((n, e) -> n * e) + numbers(20).iir(e -> e, (e, l) -> l + e)", "[1, 2, 3].number((n, e) -> n + e) + [4]", "[0] + numbers(30).combine((p, q) -> p * q)",
 		// constants that are materialised with spare capacity when the function is generated
 		"[1, 2].append(3)", "numbers(5).eval()", "[1, 2, 3].map(x -> x * 2).eval()", "[1, 2].append(3).append(4).append(5)",
 	}
@@ -120,7 +130,105 @@ func genC10Programs(c *Ctx, n, depth int) []string {
 	return progs
 }
 
+// c10Pooled: values that outlive an evaluation because the HOST keeps them (a pool of arguments): a function-backed map
+// whose declared keys are not sorted, a list map with 12 entries, a list with spare capacity, a binning. Observers and
+// "touching" programs (reads behind every position, failed lookups, method calls, appends, collects) are evaluated in a random
+// history on the pooled value; every outcome must be the one a fresh value gives to a fresh generator.
+func c10Pooled(c *Ctx) {
+	fg0 := newValueFG(true)
+	mk := func(src string) func() value.Value {
+		return func() value.Value {
+			f, _, err := newValueFG(true).Generate(src)
+			if err != nil {
+				fatal("c10 pooled: %v", err)
+			}
+			v, err := f.Eval()
+			if err != nil {
+				fatal("c10 pooled: %v", err)
+			}
+			return v
+		}
+	}
+	_ = fg0
+	kinds := []struct {
+		name  string
+		build func() value.Value
+		progs []string
+	}{
+		{"func-map", func() value.Value {
+			fac := value.NewFuncMapFactory[value.Int](func(k value.Int, key string) (value.Value, bool) {
+				switch key {
+				case "zeta":
+					return k, true
+				case "alpha":
+					return k * 10, true
+				case "mid":
+					return value.String("m"), true
+				}
+				return nil, false
+			}, "zeta", "alpha", "mid")
+			return fac.Create(7)
+		}, []string{"\"rec: \" + p", "p.zeta + a", "try p.nosuch catch 0 - 1", "p.size()", "p.list().map(e -> e.key).string()", "p.string()", "(p + {q: a}).string()", "p.map((k, v) -> k).string()", "\"again: \" + p"}},
+		{"list-map-12", mk("{k0: 0, k1: 1, k2: 2, k3: 3, k4: 4, k5: 5, k6: 6, k7: 7, k8: 8, k9: 9, k10: 10, k11: 11}"),
+			[]string{"\"rec: \" + p", "p.k10 + a", "p.k8", "p.k11 + p.k9", "p.string()", "p.list().map(e -> e.key).string()", "try p.nosuch catch 0 - 1", "p.get(\"k\" + (8 + a % 4))", "(p + {zz: a}).string()", "p.isAvail(\"k9\", \"k11\")"}},
+		{"list-with-spare-capacity", mk("[1, 2].append(3)"), []string{"p.string()", "p.append(a).string()", "(p + [a]).string()", "p.append(a).append(a + 1).size() + p.size()", "p.reverse().string()", "[1, 2] ~ p", "p ~ [3, 2, 1, a]", "p.sum()"}},
+		{"binning", mk("[0.5, 1.5, 1.5].binning(0, 1, 2, x -> x, x -> 1)"), []string{"p.values.string()", "[p, [a + 0.5].binning(0, 1, 2, x -> x, x -> 1)].collectBinning().values.string()", "[p, p].collectBinning().values.string()", "p.values.append(a).size()", "p.string()"}},
+		{"lazy-list", func() value.Value { return lazyList([]value.Value{value.Int(4), value.Int(5), value.Int(6)}, false) }, []string{"p.string()", "p.first() + a", "p.size()", "p.append(a).string()", "p[1]", "try p[7] catch 0 - 1", "p.map(e -> e + a).string()", "p.reverse().string()"}},
+	}
+	steps := c.Pick(40, 120)
+	for _, k := range kinds {
+		for rep := 0; rep < c.Pick(6, 40); rep++ {
+			pooled := k.build()
+			fg := newValueFG(true)
+			fns := map[string]funcGen.Func[value.Value]{}
+			var hist []string
+			for s := 0; s < steps; s++ {
+				src := k.progs[c.rng.Intn(len(k.progs))]
+				a := c.rng.Intn(4)
+				f, ok := fns[src]
+				if !ok {
+					var err error
+					f, _, err = fg.Generate(src, "p", "a")
+					if err != nil {
+						fatal("c10 pooled: %q: %v", src, err)
+					}
+					fns[src] = f
+				}
+				out := func() (o string) {
+					defer func() {
+						if r := recover(); r != nil {
+							o = fmt.Sprintf("PANIC %v", r)
+						}
+					}()
+					v, err := f.Eval(pooled, value.Int(a))
+					if err != nil {
+						return "ERR"
+					}
+					cv, err := canonValue(v)
+					if err != nil {
+						return "ERR"
+					}
+					return "OK " + cv
+				}()
+				iso := evalOutcome(newValueFG(true), src, []string{"p", "a"}, []value.Value{k.build(), value.Int(a)})
+				hist = append(hist, fmt.Sprintf("%s [a=%d]", src, a))
+				c.Case("pooled|"+k.name+"|"+strings.Join(hist, ";"), s >= 2)
+				c.Count("pooled:" + k.name)
+				if out != iso {
+					c.disagree++
+					c.Violation("evaluation-depends-on-history", "an evaluation on a value the host keeps between evaluations differs from the evaluation on a fresh value",
+						map[string]any{"pooled_value": k.name, "history": append([]string{}, hist...), "outcome": trunc(out, 300), "isolated": trunc(iso, 300)})
+					break
+				}
+			}
+		}
+	}
+}
+
 func runC10(c *Ctx) {
+	if os.Getenv("VERIF_REPLAY") == "" {
+		c10Pooled(c)
+	}
 	c.rule = "programs with state that survives an evaluation (constant lazy lists, constant maps and closures bound before use, recursion, failing elements, partially consumed lists; corpus + C01 generator with a constant list in scope) are generated once and evaluated in a history of up to 50 steps: arguments from a pool of 8, handed over as a sub-slice of a host-owned buffer with spare capacity (which must stay untouched), interleaved with evaluations of two other functions of the same generator, new Generate calls, results dropped, forced, or half consumed (first / top / size via the API) and consumed later; predicate: every outcome equals the isolated first evaluation of the same program and argument on a fresh generator, and the Lean model's reference outcome; non-trivial = distinct (program, history) with >= 3 evaluations over >= 2 different arguments of a program that contains a constant list/closure"
 	c.assume = append(c.assume, "state outside the model: list materialisation caches (C09 shows they are unobservable), package-level variables")
 	n := c.Pick(400, 12000)
@@ -343,6 +451,12 @@ func workerConc(args []string) {
 		}
 		bad := ""
 		var mu sync.Mutex
+		sharedArgs := map[int][]value.Value{}
+		for a := 0; a < 5; a++ {
+			buf := make([]value.Value, 1, 16)
+			buf[0] = value.Int(a)
+			sharedArgs[a] = buf
+		}
 		for r := 0; r < rounds && bad == ""; r++ {
 			if r > 0 && r%2 == 0 {
 				// a fresh function: what happens only on the FIRST evaluation of a function (materialising a constant,
@@ -365,7 +479,14 @@ func workerConc(args []string) {
 				go func(g, a int) {
 					defer wg.Done()
 					<-start
-					v, err := fn.Eval(value.Int(a))
+					var v value.Value
+					var err error
+					if r%2 == 0 {
+						// equal arguments: every goroutine hands over the SAME host-owned slice, which has spare capacity
+						v, err = fn.Eval(sharedArgs[a][:1]...)
+					} else {
+						v, err = fn.Eval(value.Int(a))
+					}
 					if err != nil {
 						results[g] = "ERR"
 						return
@@ -477,7 +598,7 @@ func runConcWorker(cases []*concCase, rounds, gmp int) {
 }
 
 func runC11(c *Ctx) {
-	c.rule = "programs as in C10 (constant lazy lists, maps, closures, recursion, failing elements) are generated once in a -race worker and evaluated from 2..16 goroutines released by a barrier, with equal arguments in even rounds and different arguments in odd rounds, on a freshly generated function in every second round (first-evaluation effects happen concurrently again), under GOMAXPROCS in {1,4,16}; predicate: every outcome equals the isolated evaluation and the race detector reports nothing; non-trivial = distinct program containing a constant list, map or closure"
+	c.rule = "programs as in C10 (constant lazy lists, maps, closures, recursion, failing elements) are generated once in a -race worker and evaluated from 2..16 goroutines released by a barrier, with equal arguments in even rounds (handed over as one shared host-owned slice with spare capacity) and different arguments in odd rounds, on a freshly generated function in every second round (first-evaluation effects happen concurrently again), under GOMAXPROCS in {1,4,16}; predicate: every outcome equals the isolated evaluation and the race detector reports nothing; non-trivial = distinct program containing a constant list, map or closure"
 	c.assume = append(c.assume, "the race detector and the Go memory model are the runtime authority on the explored schedules; the theorem-level content is the model's access discipline (fresh stack per evaluation, constants read-only)")
 	n := c.Pick(150, 4000)
 	rounds := c.Pick(12, 30)
